@@ -438,6 +438,43 @@ def dml_programs(r):
     return out
 
 
+class Raw:
+    """a hand-written program: the builder calls and the plain transcription side by side (rows compared as multisets)"""
+    orderby, items, setops = [], [], []
+
+    def __init__(self, libf, plain):
+        self.libf, self._plain = libf, plain
+
+    def lib(self):
+        return self.libf()
+
+    def plain(self):
+        return self._plain
+
+
+def correlated_programs():
+    """correlated sub-queries whose WHERE is built by several where() calls, in every order of the calls"""
+    Q_ = SQLLiteQuery
+    t, u = P.Table("t"), P.Table("u")
+    inner_plain = 'SELECT "u"."a" FROM "u" WHERE (("u"."b" = "t"."b") AND ("u"."c" = \'x\'))'
+    conds = {"corr": lambda: u.b == t.b, "local": lambda: u.c == "x"}
+    out = []
+    for order in (("corr", "local"), ("local", "corr")):
+        def inner(order=order):
+            q = Q_.from_(u).select(u.a)
+            for k in order:
+                q = q.where(conds[k]())
+            return q
+        tag = "-then-".join(order)
+        out.append(("shape:correlated-in:" + tag, Raw(lambda inner=inner: Q_.from_(t).select(t.a, t.b).where(t.a.isin(inner())),
+                                                       'SELECT "t"."a", "t"."b" FROM "t" WHERE ("t"."a" IN (%s))' % inner_plain)))
+        out.append(("shape:correlated-not-in:" + tag, Raw(lambda inner=inner: Q_.from_(t).select(t.a, t.b).where(t.a.notin(inner())),
+                                                           'SELECT "t"."a", "t"."b" FROM "t" WHERE ("t"."a" NOT IN (%s))' % inner_plain)))
+        out.append(("shape:correlated-scalar:" + tag, Raw(lambda inner=inner: Q_.from_(t).select(t.a, inner().limit(1)),
+                                                           'SELECT "t"."a", (%s LIMIT 1) FROM "t"' % inner_plain)))
+    return out
+
+
 def shape_programs():
     """hand-made programs for constructs whose reading is delicate: operator adjacency and grouping, DISTINCT with GROUP BY, ORDER BY directions"""
     C = lambda n: E("col", "t", n)  # noqa
@@ -505,7 +542,7 @@ def shape_programs():
         s.orderby = [(C("a"), dirs[0]), (C("b"), dirs[1]), (C("c"), False)]
         s.limit = 3
         out.append(("shape:orderby-directions", s))
-    return out
+    return out + correlated_programs()
 
 
 def cases(run, rng):
